@@ -28,7 +28,7 @@ RULE = (
 ASSUMPTIONS = [
     "the scripted transport stands in for TCP: recv()/recv_into() return at most the rest of the current chunk, then 0 at EOF",
     "async chunks are fed to the StreamReader with one event-loop iteration between chunks",
-    "'promptly' = at most 2 reads after EOF and within the step budget; any exception type counts as an error",
+    "'promptly' = at most 2 reads after EOF and within a step budget linear in the number of segments delivered (40000 + 200 per segment); any exception type counts as an error",
 ]
 
 FL = rrpc.PFC_FIRST | rrpc.PFC_LAST
@@ -291,7 +291,7 @@ class Driver:
         chunks = [c for c in cut(self.sc.reply[:k], [c for c in pre_cuts if c < k])] if k else []
         wit = {"reply": self.sc.name, "client": self.client, "eof_at": k, "cuts": list(pre_cuts), "reply_len": len(self.sc.reply)}
         try:
-            with mon.STEPS.measure(40000):
+            with mon.STEPS.measure(40000 + 200 * len(chunks)):  # linear in the number of deliveries: a client may do its own work per read
                 out, io = self.run(chunks)
         except mon.StepBudgetExceeded as e:
             rec.violation(f"{self.client}-eof-spin", f"{self.sc.name} EOF after {k} bytes: step budget exceeded at {e}", wit)
